@@ -52,14 +52,14 @@ def prog_from_beh(b):
             "gf": [(chars(f["pat"]), f["strict"], f["invert"]) for f in c["gf"]],
             "nf": [(chars(f["pat"]), f["strict"], f["invert"]) for f in c["nf"]],
             "plugins": [(p["name"], p["enabled"], p["err"]) for p in c["plugins"]],
-            "draws": b.get("draws"), "seed": 7, "tests": tests}
+            "draws": b.get("draws"), "seed": 7, "tests": tests, "list": c.get("list", "none")}
 
 
 def prog_lines(p):
     """program dict -> script lines for harness/testrun.cpp"""
     b = lambda x: "1" if x else "0"
     draws = "-" if p.get("draws") is None else (",".join(str(d) for d in p["draws"]) + ",")
-    lines = [["cfg", p["repeat"], b(p["reverse"]), (p.get("seed", 7) if p["shuffle"] else "-"), b(p["runIgnored"]), draws, "api" if p.get("api") else "cmd"]]
+    lines = [["cfg", p["repeat"], b(p["reverse"]), (p.get("seed", 7) if p["shuffle"] else "-"), b(p["runIgnored"]), draws, "api" if p.get("api") else "cmd", p.get("list", "none")]]
     for f in p["gf"]:
         lines.append(["gf", f[0], b(f[1]), b(f[2])])
     for f in p["nf"]:
@@ -149,6 +149,18 @@ def order_leg(ctx, nontrivial=None):
                                   "seed": 7, "tests": tests})
     tcfg, pcfg = trace_cfgs(ctx, "order", cap, maxset, True, strict=True)
     run_programs(ctx, exe, "order-b-r", progs, tcfg, pcfg)
+    # the list modes: what -lg / -ln / -ll print (TLC-generated registries x filters x mode, plus a few larger ones)
+    gcfg = ctx.write_cfg("Gen_TestRun_list", MC % {"spec": "GSpec", "cap": cap, "exc": "TRUE", "maxset": 2, "locs": "1, 2", "mode": "list",
+                         "maxtests": 2 if ctx.quick else 3, "evs": '"ok"', "invs": "Dump"})
+    g = ctx.tlc("Gen_TestRun", gcfg, workers=8, timeout=1800, heap="8g")
+    lprogs = [prog_from_beh(b) for b in g.beh]
+    for n in (5, 9):
+        for lm in ("lg", "ln", "ll"):
+            tests = [{"g": ["A", "AB", "B", "A"][i % 4], "n": "t%d" % (i % 4), "ign": (i % 3 == 1), "ph": ok3} for i in range(n)]
+            lprogs.append({"repeat": 1, "reverse": n == 9, "shuffle": False, "runIgnored": False, "gf": [("A", False, False)] if n == 5 else [], "nf": [],
+                           "plugins": [], "draws": None, "seed": 7, "tests": tests, "list": lm})
+    run_programs(ctx, exe, "list-modes", lprogs, tcfg, pcfg)
+    progs = progs + lprogs
     if nontrivial is not None:
         for p in progs:
             if p["reverse"] and p["repeat"] > 1:
